@@ -48,6 +48,7 @@ class SQLLiteQueryBuilder(QueryBuilder):
         has_reference_to_foreign_table = self._foreign_table
         has_update_from = self._update_table and self._from
 
+        outer_ctx = ctx
         ctx = ctx.copy(
             with_namespace=any(
                 [
@@ -58,6 +59,9 @@ class SQLLiteQueryBuilder(QueryBuilder):
                     has_update_from,
                 ]
             ),
+            subquery=False,
+            with_alias=False,
+            subcriterion=False,
         )
         if self._update_table:
             if self._with:
@@ -88,5 +92,5 @@ class SQLLiteQueryBuilder(QueryBuilder):
             if self._limit:
                 querystring += self._limit_sql(ctx)
         else:
-            querystring = super().get_sql(ctx=ctx)
+            querystring = super().get_sql(ctx=outer_ctx)
         return querystring
